@@ -33,41 +33,90 @@ def _event_tables():
     }
 
 
-class SimPoller(object):
+class FakeSelect(object):
+    """Stands in for the `select` module inside supervisor.poller, so that the REAL pollers (PollPoller, SelectPoller)
+    run in the loop.  Readiness is computed from the simulated kernel with Linux pipe semantics; the kernel call of a
+    pass (poll()/select()) is the scheduling point where the script's next step is applied.  A 'poll' fault of the
+    step makes that call fail with the given errno."""
+    POLLIN, POLLPRI, POLLOUT, POLLERR, POLLHUP, POLLNVAL = 1, 2, 4, 8, 16, 32
+    error = OSError
+
     def __init__(self, driver):
         self.d = driver
-        self.readables = set()
-        self.writables = set()
 
-    def register_readable(self, fd): self.readables.add(fd)
-    def register_writable(self, fd): self.writables.add(fd)
-    def unregister_readable(self, fd): self.readables.discard(fd)
-    def unregister_writable(self, fd): self.writables.discard(fd)
-    def before_daemonize(self): pass
-    def after_daemonize(self): pass
-    def close(self): pass
-
-    def poll(self, timeout):
+    def _schedule(self):
+        import errno as _errno
         self.d.at_poll()
-        k = self.d.kernel
+        q = self.d.kernel.faults.get('poll')
+        if q:
+            code = q.pop(0)
+            if code:
+                raise OSError(code, 'sim injected fault in poll')
+
+    def _ready(self, fd):
+        """(open?, readable-now, hangup, writable-now, error) of descriptor fd"""
+        ent = self.d.kernel.fds.get(fd)
+        if ent is None:
+            return (False, False, False, False, False)
+        p, mode = ent
+        if mode == 'r':
+            return (True, bool(p.buf), p.w_refs <= 0, False, False)
+        return (True, False, False, len(p.buf) < p.capacity, p.r_refs <= 0)
+
+    def poll(self):
+        return FakePollObject(self)
+
+    def select(self, rl, wl, xl, timeout=None):
+        import errno as _errno
+        self._schedule()
         r, w = [], []
-        for fd in sorted(self.readables):
-            ent = k.fds.get(fd)
-            if ent is None:
-                self.readables.discard(fd)   # POLLNVAL: the real pollers drop invalid descriptors
-                continue
-            p = ent[0]
-            if p.buf or p.w_refs <= 0:
+        for fd in sorted(set(rl) | set(wl)):
+            if not self._ready(fd)[0]:
+                raise OSError(_errno.EBADF, 'sim bad descriptor in select')
+        for fd in sorted(rl):
+            o, rd, hup, _, _ = self._ready(fd)
+            if rd or hup:
                 r.append(fd)
-        for fd in sorted(self.writables):
-            ent = k.fds.get(fd)
-            if ent is None:
-                self.writables.discard(fd)
-                continue
-            p = ent[0]
-            if len(p.buf) < p.capacity or p.r_refs <= 0:
+        for fd in sorted(wl):
+            o, _, _, wr, err = self._ready(fd)
+            if wr or err:
                 w.append(fd)
-        return r, w
+        return r, w, []
+
+
+class FakePollObject(object):
+    def __init__(self, mod):
+        self.m = mod
+        self.reg = {}
+
+    def register(self, fd, mask=7):
+        self.reg[fd] = mask
+
+    def unregister(self, fd):
+        del self.reg[fd]          # KeyError for an unregistered descriptor, as select.poll does
+
+    def poll(self, timeout=None):
+        m = self.m
+        m._schedule()
+        out = []
+        for fd in sorted(self.reg):
+            mask = self.reg[fd]
+            o, rd, hup, wr, err = m._ready(fd)
+            if not o:
+                out.append((fd, m.POLLNVAL))
+                continue
+            ev = 0
+            if rd and mask & m.POLLIN:
+                ev |= m.POLLIN
+            if hup:
+                ev |= m.POLLHUP
+            if wr and mask & m.POLLOUT:
+                ev |= m.POLLOUT
+            if err:
+                ev |= m.POLLERR
+            if ev:
+                out.append((fd, ev))
+        return out
 
 
 CMD = {0: '/sim/ok', 1: '/sim/missing', 2: '/sim/noexec'}
@@ -93,7 +142,10 @@ class Driver(object):
         self.undo = simkernel.install(self.kernel)
         opts = ServerOptions()
         opts.logger = RecLogger(self._logged)
-        opts.poller = SimPoller(self)
+        import supervisor.poller as spoller
+        self._saved_select = (spoller, spoller.select)
+        spoller.select = FakeSelect(self)
+        opts.poller = (spoller.SelectPoller if self.script.get('poller') == 'select' else spoller.PollPoller)(opts)
         opts.mood = SupervisorStates.RUNNING
         opts.test = False
         opts.minfds = 5
@@ -406,6 +458,8 @@ class Driver(object):
                 self.ended = 'crash'
         finally:
             self.undo()
+            if getattr(self, '_saved_select', None):
+                self._saved_select[0].select = self._saved_select[1]
             from supervisor import events
             events.clear()
         return {'snaps': self.snaps, 'trace': self.kernel.trace, 'ended': self.ended,
